@@ -179,8 +179,11 @@ DocSimple(doc) ==
       hnames == {N[i].name : i \in {i \in 1..Len(N) : IsHNode(N[i])}}
       plainI == {i \in 1..Len(E) : E[i].src \notin hnames /\ E[i].tgt \notin hnames}
       ends(h) == {IF E[i].src = h THEN E[i].tgt ELSE E[i].src : i \in {i \in 1..Len(E) : E[i].src = h \/ E[i].tgt = h}}
-      pairs == [i \in plainI |-> {E[i].src, E[i].tgt}] @@ [h \in hnames |-> ends(h)]
-  IN \A x, y \in DOMAIN pairs : x # y => pairs[x] # pairs[y]
+      pp == [i \in plainI |-> {E[i].src, E[i].tgt}]
+      hp == [h \in hnames |-> ends(h)]
+  IN /\ \A x, y \in plainI : x # y => pp[x] # pp[y]
+     /\ \A x, y \in hnames : x # y => hp[x] # hp[y]
+     /\ \A x \in plainI : \A y \in hnames : pp[x] # hp[y]
 \* a document as an encoder in scope writes it
 DocPlain(doc) == \A i \in 1..Len(doc.undir_edges) : doc.undir_edges[i].type = "simple"
 
